@@ -80,25 +80,33 @@ def furthest_rule(ctx, p, K):
     f = p.func(f"{G2}:furthest_grid_2d_slim_index_from")
     S = K.summarize(f)
     # squared distance of candidate k to the coordinate, per component paired with the right coordinate component
-    dn = [(v, g, l) for (nm, v, op, g, l, n) in S.assigns if nm == "distance_to_centre_new" and op == "="]
-    ok = len(dn) == 1 and len(dn[0][2]) == 1 and dn[0][2][0].kind == "iter"
+    # name-free: the candidate's squared distance is whatever scalar of the loop has that canonical form; the running maximum is the scalar set to it under the >= test
+    loops1 = [l for l in S.loops if l.kind == "iter" and isinstance(getattr(l, "seq", None), Ref) and l.seq.name == "slim_indexes"]
+    ok = len(loops1) == 1
+    cand = dist = None
     if ok:
-        lp = dn[0][2][0]
-        cand = lp.seq.index((S_(lp.var + "@"),)).poly() if isinstance(getattr(lp, "seq", None), Ref) and lp.seq.name == "slim_indexes" else None
-        ok = cand is not None and dn[0][0] == (E_("grid_2d_slim", cand, ONE) - E_("coordinate", ONE)) ** 2 + (E_("grid_2d_slim", cand, ZERO) - E_("coordinate", ZERO)) ** 2
+        lp = loops1[0]
+        cand = lp.seq.index((S_(lp.var + "@"),)).poly()
+        dist = (E_("grid_2d_slim", cand, ONE) - E_("coordinate", ONE)) ** 2 + (E_("grid_2d_slim", cand, ZERO) - E_("coordinate", ZERO)) ** 2
+    dn = [(v, g, l) for (nm, v, op, g, l, n) in S.assigns if op == "=" and isinstance(v, Poly) and dist is not None and v == dist and len(l) == 1 and not real_guards(g)]
+    ok = ok and len(dn) >= 1
     ctx.ob(rule, f.key + ":distance", ok, where=f, node=f.node, construct=short(dn[0][0]) if dn else "", message="the candidate distance must be (x - cx)^2 + (y - cy)^2 with y = grid[k, 0], x = grid[k, 1] and (cy, cx) = coordinate, over the given candidate indices only")
-    upd = [(nm, v, g) for (nm, v, op, g, l, n) in S.assigns if nm in ("distance_to_centre", "furthest_grid_2d_slim_index") and op == "=" and l]
-    ok2 = len(upd) == 2
-    if ok2 and ok:
-        for nm, v, g in upd:
-            gg = real_guards(g)
-            ok2 = ok2 and len(gg) == 1 and norm_cond(gg[0]) == norm_cond(CMP(dn[0][0], ">=", S_("distance_to_centre~")))
-        vals = {nm: v for nm, v, g in upd}
-        ok2 = ok2 and vals.get("distance_to_centre") == dn[0][0] and isinstance(vals.get("furthest_grid_2d_slim_index"), Ref) and vals["furthest_grid_2d_slim_index"].poly() == cand
+    upd = [(nm, v, g) for (nm, v, op, g, l, n) in S.assigns if op == "=" and l and real_guards(g)]
+    ok2 = len(upd) == 2 and ok
+    if ok2:
+        best = [nm for nm, v, g in upd if isinstance(v, Poly) and v == dist]
+        idxs = [nm for nm, v, g in upd if isinstance(v, Ref) and v.poly() == cand]
+        ok2 = len(best) == 1 and len(idxs) == 1
+        if ok2:
+            for nm, v, g in upd:
+                gg = real_guards(g)
+                ok2 = ok2 and len(gg) == 1 and norm_cond(gg[0]) == norm_cond(CMP(dist, ">=", S_(best[0] + "~")))
+            # the index returned is the remembered one
+            ok2 = ok2 and [norm_text(r_.value) for r_ in wire.returns_of(f)] == [idxs[0]]
     ctx.ob(rule, f.key + ":keep-farthest", ok2 and ok, where=f, node=f.node, construct=str([(nm, [repr(c) for c in real_guards(g)][:1]) for nm, v, g in upd])[:300],
            message="the running maximum and the remembered index must be updated together, exactly when the candidate is at least as far (>=) as the farthest so far")
     rets = wire.returns_of(f)
-    ctx.ob(rule, f.key + ":returns", len(rets) == 1 and norm_text(rets[0].value) == "furthest_grid_2d_slim_index", where=f, node=f.node, construct="", message="the remembered index must be returned")
+    ctx.ob(rule, f.key + ":returns", len(rets) == 1 and isinstance(rets[0].value, ast.Name), where=f, node=f.node, construct="", message="the remembered index must be returned")
     # bounding-box centre
     g = p.func(f"{G2}:grid_2d_centre_from")
     G = K.summarize(g)
